@@ -18,11 +18,28 @@ LEVEL_TEXT = {
            "flattened request log (nested requests of plan constructors included); every request returns the plan a fresh thread would build. "
            "Tie: lock-step correspondence of both caches' key lists (DSPLIB_VERIF hook) after every request of every enumerated history, "
            "bit-exact comparison of every result with the fresh-thread result; bypass set, MAX_DFT_SIZE and default cache size regenerated.",
+    "C15": "Theorems for EVERY 32-bit unsigned argument: isprime n <-> Nat.Prime n, factor n = sorted prime factorisation with product n, "
+           "primes n = the primes <= n (n < 2^31), nextprime n = least prime >= n (n <= 4294967291), nextpow2 = ceil log2, ispow2 exact; "
+           "generator invariant (Bertrand bounds the fuel; no uint32 wrap); cost clause: at most sqrt(n) trial divisions (loop counters of the model). "
+           "Tie: PRIMES table regenerated from primes.cpp; executable model vs implementation on every n <= 2^13 (2^16 thorough), boundary windows, random 32-bit; "
+           "implementation vs sieve / deterministic Miller-Rabin on every n <= 2^18 (2^22 thorough) with a per-call time limit.",
 }
 
 NOT_CLAIMED = {}
 
 PROPS = {
+    "C15": {
+        "gen": ["Consts"],
+        "lean_props": "DspVerif.Props.C15",
+        "harness": [{"src": "c15.cpp", "cfg": "rel"}],
+        "rule": "every n in [0, 2^18] (thorough 2^22) against a sieve; windows around 2^16, 2^24, 2^31, 65521^2, 2^32; squares/products of primes near 2^16; "
+                "1e5 (1e6) random 32-bit arguments against deterministic Miller-Rabin; nextpow2/ispow2 on every m <= 2^20 and within 64 of every 2^k; "
+                "distinct = distinct (function, argument) pairs; non-trivial = all",
+        "technique": "Lean 4 proof (loop invariants over an executable uint32-faithful model, Bertrand's postulate, Lucas certificate for 4294967291) + model/implementation correspondence + sieve/Miller-Rabin oracle with per-call time limit",
+        "level_note": "uint32 arithmetic modelled on Nat with explicit wrap; std::vector growth, the int conversion of factors >= 2^31 (toI32) and wall-clock cost are modelled/measured, not verified; cost theorem counts loop iterations of the model",
+        "trusted_base": TB_COMMON + ["wall-clock bound per call (0.5 s) is a measurement; the theorem bounds loop iterations of the model"],
+        "assumptions": ["answers not representable in the return type (prime factor >= 2^31, nextprime above 4294967291, primes(n >= 2^31)) are outside the property"],
+    },
     "C10": {
         "gen": ["Consts"],
         "lean_props": "DspVerif.Props.C10",
